@@ -271,6 +271,65 @@ def _saver_is(lit, values):
     return key(lit[1]) == "state->saver.state" and const_val(lit[2]) in values
 
 
+OVERWRITE_OK = {
+    ("ldb_destroy", "status"): "first error wins: `if (rc == LDB_OK && status != LDB_OK) rc = status` deliberately ignores later "
+                               "removal failures once one was recorded",
+}
+
+
+def _overwrite_is_an_error(P, f, where):
+    """The assignment at `where` stores the result of a status getter that the
+    dominating branch has just seen to be non-OK: an error replaces whatever
+    was there, which loses no failure."""
+    for b, i, e in f.events("asg"):
+        if e["l"] != where:
+            continue
+        r = strip_casts(e["rhs"])
+        if not (isinstance(r, dict) and r.get("k") == "call"):
+            return False
+        nm = status._name(r)
+        atoms = xgraph(P, f).must_at(b, i) or ()
+        for a in atoms:
+            if a[0] == "!=" and a[2] == "0" and nm and (a[1].startswith(nm + "(") or (nm == "ldb_iter_status" and "->status)(" in a[1])):
+                return True
+        return False
+    return False
+
+
+def check_status_not_overwritten(ctx):
+    """A status stored in a local is looked at before that local is assigned
+    again, on every path: otherwise an error is replaced by a later success
+    (a loop that keeps only the last child's status, a cleanup call whose
+    result lands in the variable that carried the failure)."""
+    P = ctx.P
+    S = set(status.status_functions(P)) | {"ldb_iter_status"} | \
+        {f.name for f in P.all_functions if f.name.endswith("_status") and f.ret.startswith("int")}
+    n = 0
+    for f in P.all_functions:
+        sites = [(b, i, e) for (b, i, e) in f.events("asg") if isinstance(strip_casts(e["rhs"]), dict) and
+                 strip_casts(e["rhs"]).get("k") == "call" and status._name(strip_casts(e["rhs"])) in S]
+        if not sites:
+            continue
+        lost = {e["l"]: where for (b, i, e, where) in status.overwritten_unread(P, f, S)}
+        for b, i, e in sites:
+            l = strip_casts(e["lhs"])
+            if not (isinstance(l, dict) and l.get("k") == "var" and l.get("kind") == "local" and e["op"] == "="):
+                continue
+            n += 1
+            inst = "%s:%s@%s" % (f.name, l["n"], e["l"].split(":")[1])
+            if e["l"] in lost and _overwrite_is_an_error(P, f, lost[e["l"]]):
+                ctx.ok("T4-status-not-overwritten", inst, site(f, e), "only ever replaced by another error (the overwrite is guarded by `!= LDB_OK`)")
+                continue
+            if e["l"] in lost and (f.name, l["n"]) not in OVERWRITE_OK:
+                ctx.bad("T4-status-not-overwritten", inst, f.name, site(f, e),
+                        "the status of %s stored in `%s` can be overwritten at %s before anything looked at it" %
+                        (status._name(strip_casts(e["rhs"])), l["n"], lost[e["l"]]), subject="%s:%s" % (f.name, l["n"]))
+            else:
+                ctx.ok("T4-status-not-overwritten", inst, site(f, e),
+                       "read before reassigned" if e["l"] not in lost else "listed: " + OVERWRITE_OK[(f.name, l["n"])], e["l"] not in lost)
+    ctx.require(n >= 120, "only %d status assignments found" % n)
+
+
 def check_aborts(ctx):
     P = ctx.P
     S = status.status_functions(P)
@@ -323,6 +382,11 @@ def check_aborts(ctx):
 
 
 def check(ctx):
+    check_status_not_overwritten(ctx)
+    from . import tablefmt as _tf2
+    _tf2.check_twoiter_status(ctx)   # an error met while skipping blocks stays visible
+    from . import c02 as _c02
+    _c02.check_env_read(ctx)      # a failed read is reported
     check_status_discipline(ctx)
     check_latch(ctx)
     check_failed_outputs(ctx)
